@@ -436,8 +436,9 @@ class Evaluator:
     """One evaluator per analysis question; `slot_children=True` keeps get_sql calls on
     child objects as slots instead of inlining them."""
 
-    def __init__(self, program: Program, max_depth: int = 40):
+    def __init__(self, program: Program, max_depth: int = 40, inline_self: bool = True):
         self.p = program
+        self.inline_self = inline_self
         self.idx = 0
         self.stack: list[FuncInfo] = []
         self.max_depth = max_depth
@@ -1449,6 +1450,8 @@ class Evaluator:
             f = base.cls.resolve(m)
             if f is not None:
                 args, kwargs = self.eval_args(e, fr)
+                if base.root and not self.inline_self and any(isinstance(a, CtxV) for a in list(args) + list(kwargs.values())):
+                    return self.slot(base, m, args, kwargs, fr, e)   # own helper kept as a slot (function-local analysis)
                 if base.root or not self.is_render_name(m):
                     return self.call_function(f, base.cls, base, args, kwargs, self.src(fr, e))
                 return self.slot(base, m, args, kwargs, fr, e)
